@@ -26,16 +26,59 @@ Record HG c (cur n : N) (carry : bytes) : Prop := mkHG {
 }.
 
 (* what a fragment does to the decoder, and where the ghost is afterwards *)
+(* the table entry of the frame's stream before the step (a new stream if there is none) *)
+Definition entry_before (c0 : sconn) (fr : sframe) : stream :=
+  match strms_search (sc_strms c0) (sf_sid fr) with
+  | Some s => s
+  | None => set_orig_started (new_stream (sf_sid fr) (sc_initWin c0)) KHeaders (sc_now c0)
+  end.
+
+Definition hd_set_fin (h : hdr) (b : bool) : hdr :=
+  mkHdr b (hd_prev h) (hd_pMethod h) (hd_pScheme h) (hd_pPath h) (hd_pAuth h)
+        (hd_regularSeen h) (hd_contentLength h) (hd_hasCL h) (hd_headerListSize h) (hd_blockFields h)
+        (hd_path h) (hd_req h).
+
+(* what the fragment did to its own stream, if the stream is (still) in the table: its header state is the
+   field-by-field fold over the decoded fields, from where it was *)
+Definition own_post (s0 : stream) (fr : sframe) (fs : list (bytes * bytes)) (carry' : bytes) (c' : sconn) : Prop :=
+  forall x, In x (sc_strms c') -> st_id x = sf_sid fr ->
+  exists hF, hfold cfg (hh1 s0 fr) fs = Some hF /\
+    get_hdr x = (if eh_of fr then hd_set_fin (hd_set_prev hF []) true else hd_set_prev hF carry') /\
+    st_recvBody x = st_recvBody s0.
+
+(* a stream enters the table only as a new stream: its id is above every id seen so far *)
+Definition ids_post (c0 : sconn) (fr : sframe) (c' : sconn) : Prop :=
+  forall x, In x (sc_strms c') ->
+  In (st_id x) (map st_id (sc_strms c0)) \/ (st_id x = sf_sid fr /\ sc_highestID c0 < sf_sid fr).
+
 Definition hdr_post (c0 : sconn) (n0 : N) (b0 : bytes) (fr : sframe) (c' : sconn) : Prop :=
   exists fs n' carry', ref_run dec_field (eh_of fr) (sc_dec c0) n0 b0 fs (sc_dec c') n' carry' /\
     eff c0 c' /\
-    (sc_sl_done c' = false -> HG c' (next_cur fr) n' carry').
+    (sc_sl_done c' = false -> HG c' (next_cur fr) n' carry' /\ oth (sf_sid fr) c0 c' /\
+                              own_post (entry_before c0 fr) fr fs carry' c' /\ ids_post c0 fr c').
 
-Lemma hdr_post_pre c1 c2 n0 b0 fr c' : eff c1 c2 -> sc_dec c2 = sc_dec c1 -> hdr_post c2 n0 b0 fr c' -> hdr_post c1 n0 b0 fr c'.
+Lemma hdr_post_pre c1 c2 n0 b0 fr c' : eff c1 c2 -> sc_dec c2 = sc_dec c1 -> oth (sf_sid fr) c1 c2 ->
+  entry_before c2 fr = entry_before c1 fr -> ids_post c1 fr c2 -> sc_highestID c1 <= sc_highestID c2 ->
+  hdr_post c2 n0 b0 fr c' -> hdr_post c1 n0 b0 fr c'.
 Proof.
-  intros E D (fs & n' & carry' & R & E2 & G). exists fs, n', carry'. rewrite <- D.
-  split; [exact R|]. split; [eapply eff_trans; eassumption | exact G].
+  intros E D O EB IP HL (fs & n' & carry' & R & E2 & G). exists fs, n', carry'. rewrite <- D.
+  split; [exact R|]. split; [eapply eff_trans; eassumption|].
+  intro Hd. destruct (G Hd) as (G1 & G2 & G3 & G4). split; [exact G1|]. split; [eapply oth_trans; eassumption|].
+  split; [rewrite <- EB; exact G3|].
+  intros x Ix. destruct (G4 x Ix) as [I2|[I2 I3]]; [|right; split; [exact I2 | lia]].
+  apply in_map_iff in I2. destruct I2 as (y & Ey & Iy). rewrite <- Ey. apply IP. exact Iy.
 Qed.
+
+Lemma ids_post_same c0 fr c' : sc_strms c' = sc_strms c0 -> ids_post c0 fr c'.
+Proof. intros E x Ix. left. rewrite E in Ix. apply in_map. exact Ix. Qed.
+
+Lemma get_hdr_views x s : hv x = hv s -> rqv x = rqv s -> get_hdr x = get_hdr s /\ st_recvBody x = st_recvBody s.
+Proof. unfold hv, rqv, get_hdr. intros H1 H2. inversion H1. inversion H2. split; congruence. Qed.
+
+Lemma get_hdr_set_hdr s h : get_hdr (set_hdr s h) = h.
+Proof. destruct h. reflexivity. Qed.
+Lemma get_hdr_finished s h b : get_hdr (set_headers_finished (set_hdr s h) b) = hd_set_fin h b.
+Proof. destruct h. reflexivity. Qed.
 
 Lemma P_weaken idp idp' s : P idp s -> st_headersFinished s = true -> P idp' s.
 Proof. unfold P. intros (P1 & P2 & P3 & P4 & P5) Hf. repeat split; try tauto. intro H. congruence. Qed.
@@ -111,10 +154,12 @@ Proof.
                     (if eh_of fr then 0 else sf_sid fr) carry' n' =
                   upd_discard (upd_dec c0 d') (if eh_of fr then 0 else sf_sid fr) carry' n')
         by (destruct (fkind_eqb _ _); reflexivity).
-      rewrite E. split.
+      rewrite E. split; [split|].
       * eapply HInv_dd; [exact H | exact HF|]. destruct (eh_of fr); [congruence | auto].
       * unfold next_cur. destruct (eh_of fr); [congruence|]. intros _. unfold carry_at. sc_cbn.
         rewrite N.eqb_refl. reflexivity.
+      * split; [apply oth_same_strms; reflexivity|]. split; [|apply ids_post_same; reflexivity].
+        intros y Iy Ey. exfalso. apply NI. rewrite <- Ey. apply in_map. exact Iy.
 Qed.
 
 (* ---------- helpers for the stream that gets the block ---------- *)
@@ -258,19 +303,43 @@ Proof.
       replace (sc_discardID c2 =? sf_sid fr) with false by lia.
       cbn [s3 set_hdr st_headersFinished hd_set_prev hd_headersFinished st_blockFields hd_blockFields st_prev hd_prev].
       rewrite HFF. f_equal. f_equal. lia. }
-    assert (M : hmvs true (put c3 s3) (fst (ftail_rest cfg c3 s3 None fr wc))).
-    { apply (hmvs_ftail_rest _ dec_field enc_set_max).
+    assert (M : hmvs (sf_sid fr) true (put c3 s3) (fst (ftail_rest cfg c3 s3 None fr wc))).
+    { apply (hmvs_ftail_rest _ dec_field enc_set_max cfg (sf_sid fr)).
       - apply IT. reflexivity.
       - exact WC.
       - intros _ CL. apply (handle_state_not_rst _ _ NR) in CL. cbn [s3 set_hdr st_state] in CL.
         destruct (rank_ok_closed _ _ _ Ps RO CL) as [Hs OK]. intros K _. apply (OK K Hs).
       - intros code Ec. discriminate Ec. }
     exists fs, n', carry'. split; [|split].
-    + rewrite (hmvs_dec _ _ _ _ M). rewrite EH. exact R.
+    + rewrite (hmvs_dec _ _ _ _ _ M). rewrite EH. exact R.
     + eapply eff_trans; [|eapply hmvs_eff; exact M]. apply eff_quiet; reflexivity.
-    + intro Hd'. unfold next_cur. rewrite EH. split.
+    + intro Hd'. unfold next_cur. rewrite EH. split; [split|split; [|split]].
       * eapply hmvs_HInv; [exact M | exact HV | exact Hd'].
       * intros _. eapply hmvs_carry; [exact M | exact HV | exact Hd' | exact CV].
+      * eapply oth_trans; [|eapply hmvs_other; [exact M | exact Hd']].
+        eapply oth_trans; [apply (oth_same_strms _ _ c2 c3); reflexivity | apply oth_put; exact Es].
+      * (* its own entry: what handle_frame made of it, whatever after_frame did to its state and flags *)
+        assert (M0 : hmvs 0 true (put c3 s3) (fst (ftail_rest cfg c3 s3 None fr wc))).
+        { apply (hmvs_ftail_rest _ dec_field enc_set_max cfg 0).
+          - apply IT. reflexivity.
+          - exact WC.
+          - intros _ CL. apply (handle_state_not_rst _ _ NR) in CL. cbn [s3 set_hdr st_state] in CL.
+            destruct (rank_ok_closed _ _ _ Ps RO CL) as [Hs OK]. intros K _. apply (OK K Hs).
+          - intros code Ec. discriminate Ec. }
+        assert (ES0 : entry_before c2 fr = s) by (unfold entry_before; rewrite SS; reflexivity).
+        rewrite ES0. intros x Ix Ex.
+        assert (X0 : st_id x <> 0) by (rewrite Ex; exact NZ).
+        destruct (hmvs_other _ 0 true _ _ M0 Hd' x Ix X0) as (s' & Is' & Ei' & Er' & Eh').
+        assert (S' : s' = s3).
+        { destruct HV as [NDv _ _ _ _ _]. pose proof (iso_NoDup_search _ _ NDv Is') as Sv.
+          rewrite Ei', Ex in Sv. assert (SP : strms_search (sc_strms (put c3 s3)) (sf_sid fr) = Some s3).
+          { rewrite sc_strms_put. rewrite <- Es. change (st_id s) with (st_id s3). eapply iso_search_put_same.
+            cbn [s3 set_hdr st_id]. rewrite Es. exact SS. }
+          congruence. }
+        subst s'. destruct (get_hdr_views _ _ Eh' Er') as [GH GR]. exists hF. split; [exact HF|].
+        rewrite GH, GR, EH. cbn [s3 set_hdr st_recvBody]. split; [apply get_hdr_set_hdr | reflexivity].
+      * intros x Ix. left. pose proof (hmvs_ids _ _ _ _ _ M Hd' x Ix) as I2.
+        rewrite sc_strms_put, strms_put_ids in I2. exact I2.
   - (* the block is complete *)
     set (s3 := set_headers_finished (set_hdr s (hd_set_prev hF [])) true) in *. set (c3 := upd_dec c2 d') in *.
     assert (R0 := rank_ok_unanswered _ _ _ Ps RO).
@@ -281,24 +350,46 @@ Proof.
       - eapply HInv_put; [apply HInv_upd_dec; exact H | exact S3 | exact P3].
       - rewrite sc_strms_put. replace (sf_sid fr) with (st_id s3) by exact Es. eapply iso_search_put_same. exact S3.
       - reflexivity. }
-    assert (M : hmvs true (put c3 s3) (fst (ftail_rest cfg c3 s3 (validate_request_pseudo_headers s3) fr wc))).
-    { apply (hmvs_ftail_rest _ dec_field enc_set_max).
+    assert (M : hmvs (sf_sid fr) true (put c3 s3) (fst (ftail_rest cfg c3 s3 (validate_request_pseudo_headers s3) fr wc))).
+    { apply (hmvs_ftail_rest _ dec_field enc_set_max cfg (sf_sid fr)).
       - apply IT. reflexivity.
       - exact WC.
       - intros _ _ _ Hf. discriminate Hf.
       - intros code Ec. apply validate_err in Ec. discriminate Ec. }
     exists fs, n', []. split; [|split].
-    + rewrite (hmvs_dec _ _ _ _ M). rewrite EH. exact R.
+    + rewrite (hmvs_dec _ _ _ _ _ M). rewrite EH. exact R.
     + eapply eff_trans; [|eapply hmvs_eff; exact M]. apply eff_quiet; reflexivity.
-    + intro Hd'. unfold next_cur. rewrite EH. split; [|congruence].
-      eapply hmvs_HInv; [exact M | exact HV | exact Hd'].
+    + intro Hd'. unfold next_cur. rewrite EH. split; [split; [|congruence]|split; [|split]].
+      * eapply hmvs_HInv; [exact M | exact HV | exact Hd'].
+      * eapply oth_trans; [|eapply hmvs_other; [exact M | exact Hd']].
+        eapply oth_trans; [apply (oth_same_strms _ _ c2 c3); reflexivity | apply oth_put; exact Es].
+      * (* its own entry: what handle_frame made of it, whatever after_frame did to its state and flags *)
+        assert (M0 : hmvs 0 true (put c3 s3) (fst (ftail_rest cfg c3 s3 (validate_request_pseudo_headers s3) fr wc))).
+        { apply (hmvs_ftail_rest _ dec_field enc_set_max cfg 0).
+          - apply IT. reflexivity.
+          - exact WC.
+          - intros _ _ _ Hf. discriminate Hf.
+          - intros code Ec. apply validate_err in Ec. discriminate Ec. }
+        assert (ES0 : entry_before c2 fr = s) by (unfold entry_before; rewrite SS; reflexivity).
+        rewrite ES0. intros x Ix Ex.
+        assert (X0 : st_id x <> 0) by (rewrite Ex; exact NZ).
+        destruct (hmvs_other _ 0 true _ _ M0 Hd' x Ix X0) as (s' & Is' & Ei' & Er' & Eh').
+        assert (S' : s' = s3).
+        { destruct HV as [NDv _ _ _ _ _]. pose proof (iso_NoDup_search _ _ NDv Is') as Sv.
+          rewrite Ei', Ex in Sv. assert (SP : strms_search (sc_strms (put c3 s3)) (sf_sid fr) = Some s3).
+          { rewrite sc_strms_put. replace (sf_sid fr) with (st_id s3) by exact Es. eapply iso_search_put_same. exact S3. }
+          congruence. }
+        subst s'. destruct (get_hdr_views _ _ Eh' Er') as [GH GR]. exists hF. split; [exact HF|].
+        rewrite GH, GR, EH. split; [apply get_hdr_finished | reflexivity].
+      * intros x Ix. left. pose proof (hmvs_ids _ _ _ _ _ M Hd' x Ix) as I2.
+        rewrite sc_strms_put, strms_put_ids in I2. exact I2.
   - (* a stream error at a field: the stream is reset and closed, the rest of the block has been decoded *)
     set (s3 := set_hdr s hF) in *.
     set (c3 := upd_discard (upd_dec c2 d') (if eh_of fr then 0 else st_id s) carry' n') in *.
     destruct (hfold_frame cfg _ _ _ HF) as (PV & _ & HFF). cbn [hh1 hd_headersFinished hd_prev] in HFF, PV.
     assert (R0 := rank_ok_unanswered _ _ _ Ps RO).
     assert (EF : eff c2 (fst (ftail_rest cfg c3 s3 (Some (EReset code)) fr wc))).
-    { eapply eff_trans; [|eapply hmvs_eff; apply (hmvs_ftail_rest _ dec_field enc_set_max cfg false c3 s3)].
+    { eapply eff_trans; [|eapply hmvs_eff; apply (hmvs_ftail_rest _ dec_field enc_set_max cfg (sf_sid fr) false c3 s3)].
       - apply eff_quiet; reflexivity.
       - exists s. unfold c3. sc_cbn. cbn [s3 set_hdr st_id]. rewrite Es. exact SS.
       - exact WC.
@@ -354,11 +445,30 @@ Proof.
         unfold carry_at, cc. rewrite E1, E2, E3. unfold c4, c3. sc_rw. sc_cbn. rewrite Es, N.eqb_refl. reflexivity. }
     destruct (wc && can_close_after_goaway cc)%bool.
     + split; [rewrite sc_dec_brk, DC; exact R | split; [exact EF | intro Hd'; discriminate Hd']].
-    + split; [cbn [cont fst]; rewrite DC; exact R | split; [exact EF | intros _; exact HC]].
+    + split; [cbn [cont fst]; rewrite DC; exact R | split; [exact EF | intros _; split; [exact HC|split; [|split]]]].
+      3:{ cbn [cont fst]. intros y Iy. left. unfold cc in Iy. rewrite sc_strms_close_stream in Iy. apply strms_del_In in Iy.
+          apply (in_map st_id) in Iy. rewrite sc_strms_put, strms_put_ids in Iy. unfold c4, c3 in Iy.
+          rewrite sc_strms_write_reset in Iy. sc_cbn_in Iy. exact Iy. }
+      2:{ (* the stream is gone *)
+          cbn [cont fst]. intros y Iy Ey. exfalso. destruct HC as [[NDc _ _ _ _ _] _].
+          unfold cc in Iy. rewrite sc_strms_close_stream in Iy.
+          assert (ND5 : NoDup (map st_id (sc_strms (put c4 s5)))).
+          { rewrite sc_strms_put, strms_put_ids. unfold c4, c3. sc_rw. sc_cbn. exact ND. }
+          apply (iso_del_gone _ (st_id s5) ND5). apply (in_map st_id) in Iy. rewrite Ey in Iy. replace (st_id s5) with (sf_sid fr) at 1 by (symmetry; exact Es). exact Iy. }
+      cbn [cont fst]. intros y Iy NO. unfold cc in Iy. rewrite sc_strms_close_stream in Iy. apply strms_del_In in Iy.
+      rewrite sc_strms_put in Iy. destruct (strms_put_In _ _ _ Iy) as [->|Iy']; [exfalso; apply NO; exact Es|].
+      unfold c4, c3 in Iy'. rewrite sc_strms_write_reset in Iy'. sc_cbn_in Iy'. exists y. auto.
 Qed.
 
 (* ---------- the HEADERS prelude, then the frame ---------- *)
 Lemma sc_sl_done_implicit_close fuel : forall c sid, sc_sl_done (implicit_close fuel c sid) = sc_sl_done c.
+Proof.
+  induction fuel as [|fuel IH]; intros c sid; cbn [implicit_close]; [reflexivity|].
+  destruct (sc_strms c) as [|n t]; [reflexivity|]. destruct (_ && _ && _)%bool; [|reflexivity].
+  rewrite IH. sc_rw. reflexivity.
+Qed.
+
+Lemma sc_highestID_implicit_close fuel : forall c sid, sc_highestID (implicit_close fuel c sid) = sc_highestID c.
 Proof.
   induction fuel as [|fuel IH]; intros c sid; cbn [implicit_close]; [reflexivity|].
   destruct (sc_strms c) as [|n t]; [reflexivity|]. destruct (_ && _ && _)%bool; [|reflexivity].
@@ -382,11 +492,11 @@ Proof.
                hdr_post c1 (hn0 s fr) (hb0 s fr) fr
                         (fst (match pre2 with inl r => r | inr c2 => ftail dec_field cfg c2 s fr wc end))).
     { intros pre2 -> G2.
-      destruct (hmvs_implicit_close _ dec_field enc_set_max true (S (length (sc_strms c1))) c1 (st_id s)) as (M & SR & CL).
+      destruct (hmvs_implicit_close _ dec_field enc_set_max (sf_sid fr) true (S (length (sc_strms c1))) c1 (st_id s)) as (M & SR & CL).
       set (c2 := implicit_close (S (length (sc_strms c1))) c1 (st_id s)) in *.
       assert (Hd2 : sc_sl_done c2 = false) by (unfold c2; rewrite sc_sl_done_implicit_close; exact Hd).
-      pose proof (hmvs_base _ _ _ _ M) as (OX & W2 & _). apply oext_gcount in OX.
-      apply (hdr_post_pre c1 c2); [eapply hmvs_eff; exact M | eapply hmvs_dec; exact M|]. apply ftail_hdr.
+      pose proof (hmvs_base _ _ _ _ _ M) as (OX & W2 & _). apply oext_gcount in OX.
+      apply (hdr_post_pre c1 c2); [eapply hmvs_eff; exact M | eapply hmvs_dec; exact M | eapply hmvs_other; [exact M | exact Hd2] | unfold entry_before; rewrite SS, SR by lia; rewrite SS; reflexivity | intros y Iy; left; eapply hmvs_ids; [exact M | exact Hd2 | exact Iy] | unfold c2; rewrite sc_highestID_implicit_close; lia|]. apply ftail_hdr.
       - exact HK.
       - exact Es.
       - eapply hmvs_HInv; [exact M | exact H | exact Hd2].
@@ -515,7 +625,7 @@ Proof.
       destruct (sf_sid fr <=? sc_highestID c) eqn:HI; [exfalso; cbn [cont fst] in G; eapply GA; exact G|].
       set (ch := upd_highestID c (sf_sid fr)) in *.
       assert (Hh : HInv (eq 0) ch).
-      { eapply (hmv_HInv _ (eq 0) c ch); [apply hm_highest; lia | exact H | exact Hd]. }
+      { eapply (hmv_HInv _ (sf_sid fr) (eq 0) c ch); [apply hm_highest; lia | exact H | exact Hd]. }
       (* the refusal *)
       assert (REF : (gcount (sc_out (fst (discard_or_break (discard_header_block dec_field cfg
                         (mark_closed (write_reset ch (sf_sid fr) c_RefusedStreamError) (sf_sid fr) true) fr)))) <= gcount (sc_out c))%nat ->
@@ -523,7 +633,7 @@ Proof.
                       (fst (discard_or_break (discard_header_block dec_field cfg
                         (mark_closed (write_reset ch (sf_sid fr) c_RefusedStreamError) (sf_sid fr) true) fr)))).
       { intro G2. set (cr := mark_closed (write_reset ch (sf_sid fr) c_RefusedStreamError) (sf_sid fr) true) in *.
-        assert (Mr : hmvs true ch cr).
+        assert (Mr : hmvs (sf_sid fr) true ch cr).
         { eapply hmvs_trans; [apply hmvs_same, (hsame_write_reset _ ch (sf_sid fr) c_RefusedStreamError)|].
           apply hmvs_one, hm_mark. sc_rw. unfold ch. sc_cbn. lia. }
         assert (Hr : HInv (eq 0) cr) by (eapply hmvs_HInv; [exact Mr | exact Hh | unfold cr; sc_rw; exact Hd]).
@@ -532,8 +642,12 @@ Proof.
         assert (DP := discard_path (eq 0) cr fr Hr).
         rewrite IC in DP.
         apply (hdr_post_pre c cr).
-        { eapply eff_trans; [eapply (hmv_eff _ true c ch); apply hm_highest; lia | eapply hmvs_eff; exact Mr]. }
+        { eapply eff_trans; [eapply (hmv_eff _ (sf_sid fr) true c ch); apply hm_highest; lia | eapply hmvs_eff; exact Mr]. }
         { unfold cr, ch. sc_rw. reflexivity. }
+        { apply oth_same_strms. unfold cr, ch. sc_rw. reflexivity. }
+        { unfold entry_before, cr, ch. sc_rw. reflexivity. }
+        { apply ids_post_same. unfold cr, ch. sc_rw. reflexivity. }
+        { unfold cr, ch. sc_rw. sc_cbn. lia. }
         apply DP.
         - unfold cr, ch. sc_rw. sc_cbn. exact AH.
         - unfold cr, ch. sc_rw. sc_cbn. exact NI.
@@ -569,7 +683,14 @@ Proof.
         - intros e Ie. specialize (RING e Ie). lia. }
       pose proof (fwork_hdr c3 s fr (sc_closing c) HK eq_refl H3 S3 Hd W) as FW.
       unfold hn0, hb0 in FW. rewrite IC in FW. cbn [s set_orig_started new_stream st_prev] in FW.
-      apply (hdr_post_pre c c3); [apply eff_quiet; reflexivity | reflexivity|].
+      apply (hdr_post_pre c c3); [apply eff_quiet; reflexivity | reflexivity | | | | unfold c3, ch; sc_cbn; lia|].
+      { intros y Iy NO. unfold c3 in Iy. sc_cbn_in Iy. apply in_app_or in Iy. destruct Iy as [Iy|[<-|[]]]; [exists y; auto|].
+        exfalso. apply NO. reflexivity. }
+      { unfold entry_before. rewrite S3, NF. unfold s, ch. sc_cbn.
+        replace (sf_kind fr) with KHeaders by (destruct (sf_kind fr); try discriminate KHe; reflexivity). reflexivity. }
+      { intros y Iy. unfold c3 in Iy. sc_cbn_in Iy. apply in_app_or in Iy. destruct Iy as [Iy|[<-|[]]].
+        - left. apply in_map. exact Iy.
+        - right. split; [reflexivity | lia]. }
       apply FW.
       * intro Wc. unfold ch in CL. sc_cbn_in CL. congruence.
       * intros _ p GP. apply AH. unfold c3 in GP. sc_cbn_in GP. eapply get_previous_headers_new; [exact KHv | exact GP].
